@@ -27,10 +27,11 @@ BUDGET = {
 }
 
 FAULT_KINDS = ["alias", "rejected_call"]
-PROBES = ["copy_of_copy", "nice_on_scale_with_living_relative", "nice_changed_domain",
+PROBES = ["copy_of_copy", "nice_on_scale_with_living_relative",
           "reversed_domain", "reversed_range", "clamped_scale_checked", "degenerate_domain",
           "pool_size_5", "drop_then_use_relative", "domain_on_aliased", "range_on_aliased",
-          "clamp_on_aliased", "magnitude_tiny", "magnitude_huge", "rejected_call_raised"]
+          "clamp_on_aliased", "magnitude_tiny", "magnitude_huge", "rejected_call_raised",
+          "readonly_op", "unobserved_step"]
 
 RULE = (
     "Each run draws (from one PRNG seeded by sha256(VERIF_SEED:scale:i)) a magnitude regime "
@@ -103,13 +104,22 @@ def gen_plan(rng, tier):
     fault_p = rng.choice([0.0, 0.0, 0.05, 0.12])
     copy_p = rng.choice([0.1, 0.2, 0.3])
     nice_p = rng.choice([0.1, 0.2, 0.35])
-    nops = rng.randrange(8, 26)
+    nops = rng.randrange(8, 26) if tier == "quick" else rng.randrange(8, 61)
+    max_pool = 5 if tier == "quick" else 8
+    read_p = rng.choice([0.0, 0.1, 0.25])
     ops = []
     pool = 1
     for _ in range(nops):
         r = rng.random()
         i = rng.randrange(pool)
-        if r < copy_p and pool < 5:
+        if rng.random() < read_p:
+            k = rng.choice(["ticks", "tickformat", "call", "invert"])
+            if k in ("ticks", "tickformat"):
+                ops.append([k, i, rng.choice([None, 2, 5, 10, 20])])
+            else:
+                ops.append([k, i, rng.choice([0.0, 1.0, 0.5, rng.random(), 1.5, -0.25])])
+            continue
+        if r < copy_p and pool < max_pool:
             ops.append(["copy", i])
             pool += 1
         elif r < copy_p + nice_p:
@@ -128,13 +138,23 @@ def gen_plan(rng, tier):
         elif r < copy_p + nice_p + 0.40 + clamp_p + fault_p + 0.05 and pool > 1:
             ops.append(["drop", i])
             pool -= 1
-        elif pool < 5 and rng.random() < 0.3:
+        elif pool < max_pool and rng.random() < 0.3:
             ops.append(["new"])
             pool += 1
         else:
             ops.append(["domain", i, _pair(rng, lo, hi, style)])
     fr = [0.0, 1.0, 0.5, -0.5, 2.0, 0.25, rng.random(), rng.random(), 1 + rng.random(), -rng.random()]
-    return {"sim": NAME, "regime": regime, "style": style, "ops": ops, "fractions": fr}
+    # observer effect: the checks themselves call the scales; how often they do
+    # is a swarm parameter so that histories without intermediate calls exist too
+    om = rng.random()
+    if om < 0.5:
+        observe = "all"
+    elif om < 0.75:
+        observe = "end"
+    else:
+        observe = sorted(rng.sample(range(len(ops)), max(1, len(ops) // 4)))
+    return {"sim": NAME, "regime": regime, "style": style, "ops": ops, "fractions": fr,
+            "observe": observe, "max_pool": max_pool}
 
 
 def plan_signature(plan):
@@ -144,17 +164,18 @@ def plan_signature(plan):
 def well_formed(plan):
     """Re-target ops after shrinking so that every index is valid."""
     pool = 1
+    cap = plan.get("max_pool", 5)
     ops = []
     for op in plan["ops"]:
         op = list(op)
         if op[0] == "new":
-            if pool >= 5:
+            if pool >= cap:
                 continue
             pool += 1
         else:
             op[1] = op[1] % pool
             if op[0] == "copy":
-                if pool >= 5:
+                if pool >= cap:
                     continue
                 pool += 1
             elif op[0] == "drop":
@@ -165,6 +186,9 @@ def well_formed(plan):
     if not ops:
         return None
     plan["ops"] = ops
+    if isinstance(plan.get("observe"), list):
+        # step indices lose their meaning when ops are dropped
+        plan["observe"] = "all" if len(ops) <= 6 else "end"
     return plan
 
 
@@ -309,16 +333,31 @@ def _run(plan):
     from labella.scale import LinearScale
 
     fr = plan["fractions"]
+    observe = plan.get("observe", "all")
+    nops = len(plan["ops"])
+    if observe == "all":
+        observed = set(range(nops))
+    elif observe == "end":
+        observed = {nops - 1}
+    else:
+        observed = set(observe) | {nops - 1}
     stats = {}
     log = []
     violations = []
     pool = [LinearScale()]
-    # relatives[k] = id-set of scales related by copy() (living ones only matter)
     family = [0]
     next_family = 1
     generation = [0]
-    exempt = {}  # id(scale) -> set of setters still needed after a rejected call
+    exempt = {}      # id(scale) -> setters still needed after a rejected call
+    last_snap = {}   # id(scale) -> snapshot taken at the last observation
+    touched = set()  # ids of scales that were the target of a state-changing op since then
     checked = 0
+    if observe == "all":
+        last_snap[id(pool[0])] = snapshot(pool[0], fr)
+
+    def bump(k, n=1):
+        stats[k] = stats.get(k, 0) + n
+
     for step, op in enumerate(plan["ops"]):
         kind = op[0]
         target = None
@@ -327,9 +366,9 @@ def _run(plan):
                 raise HarnessError("ill-formed plan: target %d of %d" % (op[1], len(pool)))
             target = pool[op[1]]
         aliased = target is not None and sum(1 for f in family if f == family[op[1]]) > 1
-        before = [None if s is target else snapshot(s, fr) for s in pool]
         outcome = "ok"
         new_scale = None
+        readonly = kind in ("ticks", "tickformat", "call", "invert")
         try:
             if kind == "new":
                 new_scale = LinearScale()
@@ -348,64 +387,71 @@ def _run(plan):
             elif kind == "clamp":
                 target.clamp(op[2])
             elif kind == "nice":
-                d_before = list(target.domain())
                 if op[2] is None:
                     target.nice()
                 else:
                     target.nice(op[2])
-                if list(target.domain()) != d_before:
-                    stats["probe:nice_changed_domain"] = stats.get("probe:nice_changed_domain", 0) + 1
                 if aliased:
-                    stats["probe:nice_on_scale_with_living_relative"] = stats.get(
-                        "probe:nice_on_scale_with_living_relative", 0) + 1
+                    bump("probe:nice_on_scale_with_living_relative")
             elif kind == "copy":
                 new_scale = target.copy()
                 pool.append(new_scale)
                 family.append(family[op[1]])
                 generation.append(generation[op[1]] + 1)
                 if generation[-1] >= 2:
-                    stats["probe:copy_of_copy"] = stats.get("probe:copy_of_copy", 0) + 1
+                    bump("probe:copy_of_copy")
             elif kind == "drop":
                 if aliased:
-                    stats["probe:drop_then_use_relative"] = stats.get("probe:drop_then_use_relative", 0) + 1
+                    bump("probe:drop_then_use_relative")
                 exempt.pop(id(target), None)
-                del pool[op[1]], family[op[1]], generation[op[1]], before[op[1]]
+                last_snap.pop(id(target), None)
+                touched.discard(id(target))
+                del pool[op[1]], family[op[1]], generation[op[1]]
                 target = None
-            elif kind == "bad_nice":
-                stats["fault:rejected_call:configured"] = stats.get("fault:rejected_call:configured", 0) + 1
+            elif kind in ("bad_nice", "bad_domain"):
+                bump("fault:rejected_call:configured")
                 try:
-                    target.nice(0)
+                    if kind == "bad_nice":
+                        target.nice(0)
+                    else:
+                        target.domain(["x", 1])
                     outcome = "accepted"
                 except Exception as e:
                     outcome = "raise:" + type(e).__name__
-                    stats["fault:rejected_call:fired"] = stats.get("fault:rejected_call:fired", 0) + 1
-                    stats["probe:rejected_call_raised"] = stats.get("probe:rejected_call_raised", 0) + 1
+                    bump("fault:rejected_call:fired")
+                    bump("probe:rejected_call_raised")
                 exempt[id(target)] = {"domain", "range"}
-            elif kind == "bad_domain":
-                stats["fault:rejected_call:configured"] = stats.get("fault:rejected_call:configured", 0) + 1
-                try:
-                    target.domain(["x", 1])
-                    outcome = "accepted"
-                except Exception as e:
-                    outcome = "raise:" + type(e).__name__
-                    stats["fault:rejected_call:fired"] = stats.get("fault:rejected_call:fired", 0) + 1
-                    stats["probe:rejected_call_raised"] = stats.get("probe:rejected_call_raised", 0) + 1
-                exempt[id(target)] = {"domain", "range"}
+            elif kind == "ticks":
+                bump("probe:readonly_op")
+                list(target.ticks(op[2]))
+            elif kind == "tickformat":
+                bump("probe:readonly_op")
+                target.tickFormat(op[2])(1.5)
+            elif kind == "call":
+                bump("probe:readonly_op")
+                d = target.domain()
+                target(d[0] + (d[1] - d[0]) * op[2])
+            elif kind == "invert":
+                bump("probe:readonly_op")
+                r = target.range()
+                target.invert(r[0] + (r[1] - r[0]) * op[2])
             else:
                 raise HarnessError("unknown op %r" % (op,))
         except HarnessError:
             raise
         except Exception as e:
-            # a valid call raised: that is an outcome the invariants will judge
             outcome = "raise:" + type(e).__name__
+        if target is not None and not readonly:
+            touched.add(id(target))
+        if new_scale is not None:
+            touched.add(id(new_scale))
         if aliased and kind in ("domain", "range", "clamp", "nice", "bad_nice", "bad_domain"):
-            stats["fault:alias:fired"] = stats.get("fault:alias:fired", 0) + 1
-            stats["fault:alias:configured"] = stats.get("fault:alias:configured", 0) + 1
+            bump("fault:alias:fired")
+            bump("fault:alias:configured")
             if kind in ("domain", "range", "clamp"):
-                stats["probe:%s_on_aliased" % kind] = stats.get("probe:%s_on_aliased" % kind, 0) + 1
-        if len(pool) == 5:
-            stats["probe:pool_size_5"] = stats.get("probe:pool_size_5", 0) + 1
-        # ---- invariants after the op
+                bump("probe:%s_on_aliased" % kind)
+        if len(pool) >= 5:
+            bump("probe:pool_size_5")
         v = None
         if outcome.startswith("raise") and kind in ("domain", "range", "clamp", "nice", "copy", "new"):
             # a documented call on documented arguments must not raise ... unless
@@ -413,54 +459,61 @@ def _run(plan):
             d = list(target.domain()) if target is not None else [0, 1]
             if d[0] != d[1] and outcome != "raise:ZeroDivisionError":
                 v = ("valid_call_raised", {"op": op, "outcome": outcome})
-        # I4 setter echo
-        if v is None and outcome == "ok":
-            if kind == "domain" and list(target.domain()) != [float(x) for x in op[2]]:
-                v = ("I4_echo_domain", {"set": canon(op[2]), "reported": canon(list(target.domain()))})
-            elif kind == "range" and list(target.range()) != list(op[2]):
-                v = ("I4_echo_range", {"set": canon(op[2]), "reported": canon(list(target.range()))})
-            elif kind == "clamp" and bool(target.clamp()) != bool(op[2]):
-                v = ("I4_echo_clamp", {"set": op[2], "reported": bool(target.clamp())})
-        # I2 isolation: every non-target scale is unchanged
-        if v is None:
-            for k, snap in enumerate(before):
-                if snap is None or k >= len(pool):
-                    continue
-                s = pool[k]
-                if s is target or s is new_scale:
-                    continue
-                now = snapshot(s, fr)
-                if now != snap:
-                    v = ("I2_isolation", {"op": op, "changed_scale": k,
-                                          "same_family_as_target": target is not None and kind != "drop"
-                                          and family[k] == family[op[1]] if kind != "new" else False,
-                                          "before": snap[:3], "after": now[:3]})
-                    break
-        # I3 copy equals original
-        if v is None and kind == "copy" and outcome == "ok":
-            if snapshot(new_scale, fr) != snapshot(target, fr):
-                v = ("I3_copy", {"original": snapshot(target, fr)[:3], "copy": snapshot(new_scale, fr)[:3]})
-        # I1 / I5 on every scale
-        if v is None:
-            for k, s in enumerate(pool):
-                if exempt.get(id(s)):
-                    continue
-                try:
-                    bad = check_scale(s, fr, stats)
-                except ZeroDivisionError:
-                    bad = ("division_by_zero_on_nondegenerate", {"scale": k})
-                checked += 1
-                if bad is not None:
-                    bad[1]["scale"] = k
-                    bad[1]["op"] = op
-                    v = bad
-                    break
-        mags = [abs(x) for s in pool for x in list(s.domain()) + list(s.range()) if x]
-        if mags and min(mags) < 1e-4:
-            stats["probe:magnitude_tiny"] = 1
-        if mags and max(mags) > 1e7:
-            stats["probe:magnitude_huge"] = 1
-        log.append([step, op, outcome, [canon(_reported(s)) for s in pool]])
+        if step in observed:
+            bump("observations")
+            # I4 setter echo
+            if v is None and outcome == "ok":
+                if kind == "domain" and list(target.domain()) != [float(x) for x in op[2]]:
+                    v = ("I4_echo_domain", {"set": canon(op[2]), "reported": canon(list(target.domain()))})
+                elif kind == "range" and list(target.range()) != list(op[2]):
+                    v = ("I4_echo_range", {"set": canon(op[2]), "reported": canon(list(target.range()))})
+                elif kind == "clamp" and bool(target.clamp()) != bool(op[2]):
+                    v = ("I4_echo_clamp", {"set": op[2], "reported": bool(target.clamp())})
+            snaps = {}
+            # I2 isolation: a scale that was not the target of any state-changing
+            # op since the last observation is unchanged
+            if v is None:
+                for k, sc in enumerate(pool):
+                    now = snapshot(sc, fr)
+                    snaps[id(sc)] = now
+                    old = last_snap.get(id(sc))
+                    if old is None or id(sc) in touched:
+                        continue
+                    if now != old:
+                        v = ("I2_isolation", {"op": op, "changed_scale": k,
+                                              "ops_since_last_observation": [o for o in plan["ops"][max(0, step - 6): step + 1]],
+                                              "before": old[:3], "after": now[:3]})
+                        break
+            # I3 copy equals original
+            if v is None and kind == "copy" and outcome == "ok":
+                if snaps[id(new_scale)] != snaps[id(target)]:
+                    v = ("I3_copy", {"original": snaps[id(target)][:3], "copy": snaps[id(new_scale)][:3]})
+            # I1 / I5 on every scale
+            if v is None:
+                for k, sc in enumerate(pool):
+                    if exempt.get(id(sc)):
+                        continue
+                    try:
+                        bad = check_scale(sc, fr, stats)
+                    except ZeroDivisionError:
+                        bad = ("division_by_zero_on_nondegenerate", {"scale": k})
+                    checked += 1
+                    if bad is not None:
+                        bad[1]["scale"] = k
+                        bad[1]["op"] = op
+                        v = bad
+                        break
+            last_snap = snaps if v is None else last_snap
+            touched = set()
+            mags = [abs(x) for sc in pool for x in list(sc.domain()) + list(sc.range()) if x]
+            if mags and min(mags) < 1e-4:
+                stats["probe:magnitude_tiny"] = 1
+            if mags and max(mags) > 1e7:
+                stats["probe:magnitude_huge"] = 1
+            log.append([step, op, outcome, [canon(_num(_reported(sc))) for sc in pool]])
+        else:
+            bump("probe:unobserved_step")
+            log.append([step, op, outcome])
         if v is not None:
             violations.append({"property": "C12", "class": v[0], "step": step, "detail": v[1]})
             break
@@ -522,6 +575,10 @@ def simplifiers(plan, prop):
                 q = well_formed(p)
                 if q:
                     yield q
+    if plan.get("observe", "all") != "all":
+        p = copy.deepcopy(plan)
+        p["observe"] = "all"
+        yield p
     if plan["fractions"] != [0.0, 1.0, 0.5, -0.5, 2.0, 0.25]:
         p = copy.deepcopy(plan)
         p["fractions"] = [0.0, 1.0, 0.5, -0.5, 2.0, 0.25]
